@@ -45,7 +45,7 @@ def locale_env(run):
     """runs that ask for a process locale get the synthetic single-byte locale built offline by tools/make_locale.py"""
     if '--locale' not in run.args:
         return {}
-    d = os.path.join(build.BUILD, 'locale')
+    d = os.path.join(build.BUILD, 'locale-v2')
     sys.path.insert(0, os.path.join(build.ROOT, 'tools'))
     import make_locale
     make_locale.main(d)
